@@ -49,6 +49,8 @@ type scenario struct {
 	seenOps  []string // operation labels seen in messages
 	tokenSeq int
 	kinds    string
+	// size classes of the predeclared queue (flavour 1)
+	predeclared []uint32
 	// expireStep is how far the clock is moved in each round of the final
 	// phase of drain() (must exceed every configured time-out).
 	expireStep int
@@ -70,6 +72,9 @@ func setup(tr *common.Trace, rng *rand.Rand, flavour int) *scenario {
 		for i := 0; i < nWorkers; i++ {
 			sc.workers = append(sc.workers, &WorkerDef{Label: fmt.Sprintf("w%d", i+1), ID: map[string]string{"host": fmt.Sprintf("h%d", i+1), "rack": fmt.Sprintf("r%d", i%2)}, Prefix: "", Platform: "p1", SizeClass: 0})
 		}
+		if rng.Intn(3) == 0 {
+			sc.workers = append(sc.workers, &WorkerDef{Label: "w9", ID: map[string]string{"host": "h9", "rack": "r1"}, Prefix: "", Platform: "p1", SizeClass: 3})
+		}
 		sc.insts = []string{""}
 		sc.kinds = "core"
 	case 1: // predeclared queue with two size classes, learning
@@ -78,8 +83,14 @@ func setup(tr *common.Trace, rng *rand.Rand, flavour int) *scenario {
 		script.retry = true
 		sc.kinds = "sizeclass"
 		sc.insts = []string{""}
+		sc.predeclared = [][]uint32{{1, 2}, {1, 4}, {1, 2}}[rng.Intn(3)]
 		for i := 0; i < nWorkers+1; i++ {
-			cls := uint32(1 + i%2)
+			cls := sc.predeclared[i%2]
+			if rng.Intn(4) == 0 {
+				// a size class that is not predeclared: may be added by the
+				// worker (between the declared ones) or must be rejected
+				cls = uint32(rng.Intn(6))
+			}
 			sc.workers = append(sc.workers, &WorkerDef{Label: fmt.Sprintf("w%d", i+1), ID: map[string]string{"host": fmt.Sprintf("h%d", i+1), "rack": fmt.Sprintf("r%d", i%2)}, Prefix: "", Platform: "p1", SizeClass: cls})
 		}
 	default: // several prefixes and platforms
@@ -404,7 +415,7 @@ func runTrace(t *testing.T, tr *common.Trace, idx int, steps int) {
 		if flavour == 1 {
 			limits := [][]int{{}, {4}, {4, 2}}[rng.Intn(3)]
 			maxBG := rng.Intn(2)
-			sc.w.Predeclare("", "p1", limits, maxBG, 50, []uint32{1, 2})
+			sc.w.Predeclare("", "p1", limits, maxBG, 50, sc.predeclared)
 		}
 		for i := 0; i < steps; i++ {
 			if sc.w.Panicked() || !sc.step(true) {
